@@ -5,7 +5,7 @@
 From Coq Require Import List ZArith Bool Lia.
 From TM Require Import Gram.PTables Gram.Run Gram.Validator Gram.Events Gram.Recover Gram.Recover_proofs Gram.Recover_progress.
 From TM Require Import Gram.RedTerm Gram.RedTerm_proofs Gram.RedTermRec_proofs.
-From TM Require Import Gram.Cfg Gram.CertGen Gram.RecoverSafe Gram.RecoverSafe_proofs.
+From TM Require Import Gram.Cfg Gram.CertGen Gram.RecoverSafe Gram.RecoverSafe_proofs Gram.RedTermFuel_proofs Gram.RecoverFuel_proofs.
 Import ListNotations.
 Local Open Scope Z_scope.
 
@@ -238,12 +238,50 @@ Theorem C19_validate_zero_is_check :
   forall g m nstates finals nl ft ann, check_report g m nstates finals nl ft ann = 0 -> check g m nstates finals nl ft ann = true.
 Proof. exact check_report_zero. Qed.
 
-(* Still NOT proved (partial): (1) an explicit fuel bound for the whole parse from the validators (the bound above is
-   per reduction sequence and depends on the stack depth; C19_recovering_parse_fuel_bound keeps its uniform-R
-   hypothesis); (2) crash freedom without the side condition F <= 4: the model's reduceAll carries an iteration budget
+(* ---- explicit fuel for the whole parse from the validators (replaces the uniform-R hypothesis of C19_recovering_parse_fuel_bound) ---- *)
+(* Amortised reduction bound: k consecutive reductions of the plain loop (reduce_n k x = Some y) from a configuration of the
+   invariant satisfy  k + F * |stack y| <= F * |stack x| + F^2 + 2 F + 1 : a phase that pops its anchor pays for its <= F
+   steps with the entry it removes, only the last phase can raise the stack (by <= F).  Implies the bound of
+   C19_reductions_bounded_by_stack_depth and bounds the height afterwards. *)
+Theorem C19_reductions_amortized_by_stack_depth :
+  forall p nstates T NS F, lalr1 p ->
+  check_redterm (rp_m p) nstates T NS F = true -> check_range (rp_m p) nstates T NS = true ->
+  forall x, xinv p nstates T x -> forall k y, reduce_n p k x = Some y ->
+  (k + F * length (xc_stack y) <= F * length (xc_stack x) + F * F + 2 * F + 1)%nat.
+Proof. exact redterm_amortized. Qed.
+
+(* With the potential F * |stack| (a shift or a recovery raises it by at most 2 F, every reduction sequence is paid by it up to
+   F^2 + 2 F + 1):  parse_fuel F h n = F h + F^2 + 2 F + 1 + (n + 1) (2 F^2 + 8 F + 4) + 3  iterations suffice from every
+   configuration of the invariant with stack height h and n tokens left, for every error handler -- linear in the input;
+   a parse of `input` needs at most parse_fuel F 1 |input| iterations.  Validated tables (default encoding): *)
+Theorem C19_recovering_parse_fuel_bound_on_validated_tables :
+  forall p eh nstates T NS F, lalr1 p -> shift_ok_sound p -> 0 <= rp_end p ->
+  check_range (rp_m p) nstates T NS = true -> check_redterm (rp_m p) nstates T NS F = true ->
+  check_eoi (rp_m p) nstates (rp_end p) = true ->
+  0 <= rp_err_sym p < NS -> m_goto (rp_m p) (-1) (rp_err_sym p) = -1 ->
+  (forall c, rinv nstates T c ->
+     fst (rrun_loop (parse_fuel F (length (xc_stack (rc_x c))) (length (xc_input (rc_x c)))) p eh c) <> RFuel) /\
+  (forall start input, 0 <= start < nstates -> Forall (fun t => 0 <= t_sym t < T) input ->
+     fst (rrun (parse_fuel F 1 (length input)) p eh start input) <> RFuel).
+Proof. exact rrun_fuel_validated. Qed.
+
+(* certified tables (both encodings) *)
+Theorem C19_recovering_parse_fuel_bound_on_certified_tables :
+  forall g p nstates finals nl ft ann eh F i,
+  lalr1 p -> shift_ok_sound p -> 0 <= rp_end p ->
+  check g (rp_m p) nstates finals nl ft ann = true ->
+  check_err_goto (rp_m p) nstates (vT g) (rp_err_sym p) = true ->
+  check_range (rp_m p) nstates (vT g) (vNS g) = true -> check_redterm (rp_m p) nstates (vT g) (vNS g) F = true ->
+  check_eoi (rp_m p) nstates (rp_end p) = true -> (i < ninputs g)%nat ->
+  (forall c, sinv g p i c ->
+     fst (rrun_loop (parse_fuel F (length (xc_stack (rc_x c))) (length (xc_input (rc_x c)))) p eh c) <> RFuel) /\
+  (forall input, toks_in g input -> fst (rrun (parse_fuel F 1 (length input)) p eh (Z.of_nat i) input) <> RFuel).
+Proof. exact rrun_fuel_certified. Qed.
+
+(* Still NOT proved (partial): (1) crash freedom without the side condition F <= 4: the model's reduceAll carries an iteration budget
    the Go code does not have, so for tables with longer anchored reduction phases the model may answer RCrash 2 where the
    generated parser simply keeps reducing (C19_recovering_parse_crashes_only_by_model_fuel pins the outcome down to exactly
-   that case); (3) for tables that only pass check_range/check_redterm (no certificate) the premise m_goto (-1) err = -1 of
+   that case); (2) for tables that only pass check_range/check_redterm (no certificate) the premise m_goto (-1) err = -1 of
    C19_recovering_parse_terminates_on_validated_tables remains, and it is false in the model of optimized tables; note also
    that eoi_ends (all integers as states) fails for opt_machine, so C19_recovering_parse_terminates is vacuous for optimized
    tables while the validated/certified theorems use check_eoi (table states only). *)
@@ -305,11 +343,12 @@ Example C19_certified_example :
   check g0 (rp_m p0) 7 [6] (nullable_set g0) (first_sets g0) (fst (gen_cert g0 400)) = true /\
   check_err_goto (rp_m p0) 7 (vT g0) (rp_err_sym p0) = true /\
   check_range (rp_m p0) 7 (vT g0) (vNS g0) = true /\ check_redterm (rp_m p0) 7 (vT g0) (vNS g0) 4 = true /\
-  (0 < ninputs g0)%nat /\ toks_in g0 (toks_of [2; 3; 3; 2]).
+  (0 < ninputs g0)%nat /\ toks_in g0 (toks_of [2; 3; 3; 2]) /\
+  parse_fuel 4 1 4 = 372%nat /\ fst (rrun (parse_fuel 4 1 4) p0 (fun _ => true) 0 (toks_of [2; 3; 3; 2])) = RSyntax 4 4.
 Proof.
   split; [vm_compute; reflexivity|]. split; [vm_compute; reflexivity|]. split; [vm_compute; reflexivity|].
   split; [vm_compute; reflexivity|]. split; [vm_compute; lia|].
-  repeat constructor; simpl; discriminate.
+  split; [repeat constructor; simpl; discriminate|]. split; vm_compute; reflexivity.
 Qed.
 
 Print Assumptions C19_recovery_transparent.
@@ -329,6 +368,9 @@ Print Assumptions C19_recovering_parse_never_crashes.
 Print Assumptions C19_recovering_parse_terminates_on_certified_tables.
 Print Assumptions C19_recovering_parse_terminates_on_validated_optimized_tables.
 Print Assumptions C19_validate_zero_is_check.
+Print Assumptions C19_reductions_amortized_by_stack_depth.
+Print Assumptions C19_recovering_parse_fuel_bound_on_validated_tables.
+Print Assumptions C19_recovering_parse_fuel_bound_on_certified_tables.
 Print Assumptions C19_more_fuel_changes_nothing.
 Print Assumptions C19_conditions_hold_for_default_tables.
 Print Assumptions C19_conditions_hold_for_optimized_tables.
